@@ -22,6 +22,7 @@ from onnx import helper
 EXT_FILE = "c15_ext.bin"  # written into the run's scratch cwd by the harness (passes read external payloads)
 EXT_BLOB = bytes((i * 37 + 11) % 256 for i in range(256))
 CUSTOM = "c15.custom"
+CUSTOM2 = "c15.custom.second"
 LOCAL = "c15.local"
 
 # ---------------------------------------------------------------------------------- exotic tensors
@@ -198,6 +199,72 @@ def gen_model(rng, *, opset: int | None = None, features: dict | None = None, ex
         nodes.append(helper.make_node("ReduceMax", [cur], ["rm"], name="n_reducemax", keepdims=1))
         nodes.append(helper.make_node("Add", [cur, "rm"], ["rma"], name="n_rma"))
         cur = "rma"
+    # -- a Constant node holding a tensor attribute (tensor name '' as exporters emit it, or named, with doc/metadata)
+    sink_extra = []
+    ct = opt("const_tensor_node", choices=["none", "none", "anon", "named"])
+    if ct != "none":
+        t = helper.make_tensor("" if ct == "anon" else "ct_payload", TP.FLOAT, [4], [0.25, -0.0, 2.0, 8.0])
+        if ct == "anon":
+            t.ClearField("name")
+        else:
+            t.doc_string = "attribute tensor doc"
+        cn = helper.make_node("Constant", [], ["ct"], name="n_const")
+        a = cn.attribute.add()
+        a.name, a.type = "value", onnx.AttributeProto.TENSOR
+        a.t.CopyFrom(t)
+        if rng.random() < 0.4:
+            a.doc_string = "attribute doc"
+        nodes.append(cn)
+        nodes.append(helper.make_node("Add", [cur, "ct"], ["cta"], name="n_cta"))
+        cur = "cta"
+    # -- a fold that GROWS data: Expand of a small constant; sizes straddle explicit and default size limits
+    ef = opt("expand_fold", choices=["none", "none", "small", "small", "mid", "mid", "big"])
+    if ef != "none":
+        rows, cols = {"small": (2, 3), "mid": (100, 100), "big": (600, 600)}[ef]
+        seed_t = helper.make_tensor("ef_seed", TP.FLOAT, [1, cols], [float(i % 7) for i in range(cols)])
+        shape_t = helper.make_tensor("ef_shape", TP.INT64, [2], [rows, cols])
+        if opt("expand_from_constant_nodes", 0.5):
+            for nm, tt in (("ef_seed", seed_t), ("ef_shape", shape_t)):
+                cn = helper.make_node("Constant", [], [nm], name="n_" + nm)
+                a = cn.attribute.add()
+                a.name, a.type = "value", onnx.AttributeProto.TENSOR
+                a.t.CopyFrom(tt)
+                a.t.ClearField("name")
+                nodes.append(cn)
+        else:
+            inits += [seed_t, shape_t]
+        nodes.append(helper.make_node("Expand", ["ef_seed", "ef_shape"], ["ef_big"], name="n_expand"))
+        sink_extra.append("ef_big")
+    # -- a sparse tensor attribute
+    if opt("sparse_attr", 0.06):
+        cn = helper.make_node("Constant", [], ["sp_c"], name="n_sparse")
+        a = cn.attribute.add()
+        a.name, a.type = "sparse_value", onnx.AttributeProto.SPARSE_TENSOR
+        a.sparse_tensor.values.CopyFrom(helper.make_tensor("sp_vals", TP.FLOAT, [2], [1.5, -2.5]))
+        a.sparse_tensor.indices.CopyFrom(helper.make_tensor("sp_idx", TP.INT64, [2], [0, 3]))
+        a.sparse_tensor.dims.append(5)
+        nodes.append(cn)
+        sink_extra.append("sp_c")
+    # -- an If with sub-graphs carrying their own initializer / value_info / metadata / doc
+    has_if = opt("subgraph_if", 0.35)
+    if has_if:
+        tw = helper.make_tensor("then_w", TP.FLOAT, [4], [2.0, 2.0, 2.0, 2.0])
+        tn = helper.make_node("Mul", [cur, "then_w"], ["then_mid"], name="n_then_mul")
+        tn2 = helper.make_node("Identity", ["then_mid"], ["then_out"], name="n_then_id")
+        then_g = helper.make_graph([tn, tn2], "then_body", [], [helper.make_tensor_value_info("then_out", TP.FLOAT, [N, 4])], [tw],
+                                   value_info=[helper.make_tensor_value_info("then_mid", TP.FLOAT, [N, 4])])
+        then_g.doc_string = "then doc"
+        set_meta(then_g.metadata_props, meta(rng, "SG", 2))
+        set_meta(tn.metadata_props, meta(rng, "SGN", 1))
+        en = helper.make_node("Neg", [cur], ["else_out"], name="n_else_neg", doc_string="else node doc")
+        else_g = helper.make_graph([en], "else_body", [], [helper.make_tensor_value_info("else_out", TP.FLOAT, [N, 4])])
+        if ir_version >= 10:
+            set_meta(then_g.value_info[0].metadata_props, meta(rng, "SGV", 1))
+        nodes.append(helper.make_node("If", ["flag"], ["if_out"], name="n_if", then_branch=then_g, else_branch=else_g))
+        cur = "if_out"
+    if opt("second_custom_domain", 0.3):
+        nodes.append(helper.make_node("Probe", [cur], ["probe_out"], domain=CUSTOM2, name="n_probe", level=3))
+        sink_extra.append("probe_out")
     nodes.append(helper.make_node("Identity", [cur], ["y"], name="n_out"))
 
     # -- exotic initializers kept alive by a schema-less custom op
@@ -238,18 +305,21 @@ def gen_model(rng, *, opset: int | None = None, features: dict | None = None, ex
             # inline tensors with metadata_props are inside known finding C15-TMETA: only under `tensor_meta`
             set_meta(t.metadata_props, meta(rng, f"T{i}", 1))
         exotic.append(t)
-    if exotic:
-        nodes.insert(rng.randint(0, len(nodes)), helper.make_node("Sink", [t.name for t in exotic], ["sink_out"], domain=CUSTOM, name="n_sink", mode="keep"))
+    has_sink = bool(exotic or sink_extra)
+    if has_sink:
+        nodes.insert(len(nodes) - 1, helper.make_node("Sink", [t.name for t in exotic] + sink_extra, ["sink_out"], domain=CUSTOM, name="n_sink", mode="keep"))
         inits += exotic
     if opt("unused_initializer", 0.4):
         inits.append(helper.make_tensor("unused_w", TP.INT64, [2], [7, -7]))
     rng.shuffle(inits)
 
     inputs = [helper.make_tensor_value_info("x", TP.FLOAT, [N, 4])]
+    if has_if:
+        inputs.append(helper.make_tensor_value_info("flag", TP.BOOL, []))
     if opt("initializer_as_input", 0.25):
         inputs.append(helper.make_tensor_value_info("w1", TP.FLOAT, [4]))
     outputs = [helper.make_tensor_value_info("y", TP.FLOAT, [N, 4])]
-    if exotic:
+    if has_sink:
         outputs.append(helper.make_tensor_value_info("sink_out", TP.FLOAT, None))
 
     graph = helper.make_graph(nodes, opt("graph_name", choices=["main_graph", "g", "G 1"]), inputs, outputs, inits, value_info=vinfo)
@@ -307,8 +377,10 @@ def gen_model(rng, *, opset: int | None = None, features: dict | None = None, ex
         functions.reverse()
 
     opsets = [helper.make_opsetid("", opset)]
-    if exotic:
+    if has_sink:
         opsets.append(helper.make_opsetid(CUSTOM, 1))
+    if f.get("second_custom_domain"):
+        opsets.append(helper.make_opsetid(CUSTOM2, 2))
     if functions:
         opsets.append(helper.make_opsetid(LOCAL, 1))
     if opt("unused_opset", 0.5):
